@@ -2,9 +2,10 @@
 # soak: every claimed quick check under many VERIF_SEED values on the unchanged tree; any exit != 0 is reported
 cd "$(dirname "$0")"
 N=${1:-20}
+START=${2:-100}
 export VERIF_EVIDENCE_DIR=$(mktemp -d /dev/shm/soak-ev.XXXX) VERIF_REPLAY_DIR=${VERIF_REPLAY_DIR:-/dev/shm/soak-replays} VERIF_MINIMISE_S=20
 bad=0
-for s in $(seq 100 $((100+N-1))); do
+for s in $(seq $START $((START+N-1))); do
   for p in C03 C04 C11 C16 C17 C18; do
     out=$(VERIF_SEED=$s ./check $p quick 2>&1); rc=$?
     if [ $rc -ne 0 ]; then bad=$((bad+1)); echo "SOAK-FAIL $p seed=$s rc=$rc"; echo "$out" | grep -E "^violation|VIOLATION|HARNESS" | cut -c1-400; fi
